@@ -82,6 +82,10 @@ def fold_rule(prog, rep):
     fi = prog.func("heartbeat_reduce")
     rep.unit("functions", fi.qname)
     ev, pt = fi.params[0], fi.params[1]
+    from ..sqlmodel import local_defs
+
+    rb = local_defs(fi, pt)
+    rep.check(not rb, "FOLD", fi.short, "pulsetime passed through", f"`{pt}` is not re-bound", f"`{pt}` is re-bound (`{norm(rb[0]) if rb else ''}`) before it reaches heartbeat_merge: the fold no longer applies the merge rule at the caller's pulsetime", fi.loc(rb[0]) if rb else fi.loc())
     rets = [n for n in walk_own(fi.node) if isinstance(n, ast.Return)]
     if len(rets) != 1 or not isinstance(rets[0].value, ast.Name):
         rep.undecided("FOLD", fi.short, "return", "not a single `return <acc>`", fi.loc())
@@ -169,6 +173,7 @@ VARIANTS = [
     ("B fold appends merged", H, "reduced[-1] = merged", "reduced.append(merged)", "FOLD"),
     ("B fold merges into first", H, "heartbeat_merge(reduced[-1], heartbeat, pulsetime)", "heartbeat_merge(reduced[0], heartbeat, pulsetime)", "FOLD"),
     ("B fold drops unmerged", H, "            reduced.append(heartbeat)\n", "            pass\n", "FOLD"),
+    ("B pulsetime truncated to milliseconds in the fold", H, "    reduced = []\n", "    pulsetime = int(pulsetime * 1000) / 1000\n    reduced = []\n", "FOLD"),
     ("OK guard inverted to early return", H, "    if last_event.data == heartbeat.data:\n", "    if last_event.data != heartbeat.data:\n        return None\n    if True:\n", "ok"),
     ("OK max with two args", H, "max((last_event.duration, new_duration))", "max(last_event.duration, new_duration)", "ok"),
     ("OK temporaries inlined", H, "        if within_pulsetime_window:", "        if last_event.timestamp <= heartbeat.timestamp and heartbeat.timestamp <= last_event.timestamp + last_event.duration + timedelta(seconds=pulsetime):", "ok"),
